@@ -69,8 +69,8 @@ def run(ctx: Ctx):
             srcs[0].args[1].args[1].op == "param"
         bs = getattr(tdl, "meta", {}).get("batch_size")
         lead = False
-        if full and isinstance(bs, vg.S) and bs.op == "sub" and vg.is_const(bs.args[1], 0) and bs.args[0].op == "attr" and bs.args[0].args[1] == "shape":
-            arr = bs.args[0].args[0]
+        if full and isinstance(bs, vg.S) and nf.dim_of(bs) is not None and nf.dim_of(bs)[1] == 0:
+            arr = nf.dim_of(bs)[0]
             lead = arr.op == "sub" and arr.args[0] is srcs[0]
         ok = full and lead
         why = f"TensorDict(dict(np.load(file))) with every key of the archive: {full}; batch size = leading axis of one of its arrays: {lead}"
@@ -146,10 +146,9 @@ def run(ctx: Ctx):
     for f in (w, r, pj):
         ctx.fn(f)
     wsrc, rsrc, psrc = ast.unparse(w.node), ast.unparse(r.node), ast.unparse(pj.node)
-    plus = any(isinstance(n, ast.BinOp) and isinstance(n.op, ast.Add) and isinstance(n.right, ast.Constant) and n.right.value == 1 and "machine" in ast.unparse(n.left) for n in ast.walk(w.node))
+    plus = order_w_placeholder = None
     minus = any(isinstance(n, ast.Subscript) and "proc_times" in ast.unparse(n.value) and isinstance(n.slice, ast.Tuple) and isinstance(n.slice.elts[0], ast.BinOp)
                 and isinstance(n.slice.elts[0].op, ast.Sub) and isinstance(n.slice.elts[0].right, ast.Constant) and n.slice.elts[0].right.value == 1 for n in ast.walk(r.node))
-    ctx.ob("C19.c", "fjsp-parser:machine-id-shift", plus and minus, w.loc, f"writer emits machine + 1: {plus}; reader stores at [ma - 1, op]: {minus}", construct="fjsp.parser:machine-shift")
     # token layout, on the value graph: <n_ops> (<n_eligible> (<machine+1> <duration>)*)*
     itp = vg.Interp(ctx.repo, None, inline_policy=lambda f, a: False)
     frp = itp.run_function(pj)
@@ -158,7 +157,8 @@ def run(ctx: Ctx):
 
     def tok(ix):
         return vg.mk("sub", line_p, ix)
-    idx_l = Lp.get("idx")
+    # the cursor is the loop-carried local that starts at 1 (token 0 is the number of operations)
+    idx_l = next((v for v in Lp.values() if isinstance(v, vg.S) and v.op == "loop" and vg.is_const(v.args[0], 1)), None)
     order_r = adv = False
     why_r = "cursor / slices not recognised"
     if isinstance(idx_l, vg.S) and idx_l.op == "loop" and vg.is_const(idx_l.args[0], 1):
@@ -180,7 +180,14 @@ def run(ctx: Ctx):
                         lo, hi, st = v.args[1].args
                         return nf.poly(lo) - nf.poly(cur), nf.poly(hi) - nf.poly(cur), st
                     return None
-                sm, sd = sl(Lp.get("machines")), sl(Lp.get("durations"))
+                # machines / durations are the two operands of the zip the (machine, duration) pairs are built from
+                mv_ = dv_ = None
+                for e in itp.events:
+                    if e.kind == "methcall" and e.data[1] == "append" and e.data[2] and e.data[2][0].op == "comp":
+                        ov_ = [x for x in e.data[2][0].args if isinstance(x, vg.S) and x.op == "over"]
+                        if len(ov_) == 1 and nf._fn(ov_[0].args[0]) == "zip" and len(ov_[0].args[0].args) == 3:
+                            mv_, dv_ = ov_[0].args[0].args[1], ov_[0].args[0].args[2]
+                sm, sd = sl(mv_), sl(dv_)
                 if sm and sd:
                     order_r = sm[0] == nf.Poly.const(1) and sd[0] == nf.Poly.const(2) and sm[1] == nf.Poly.const(1) + P2 and sd[1] == nf.Poly.const(2) + P2 and \
                         vg.is_const(sm[2], 2) and vg.is_const(sd[2], 2)
@@ -193,13 +200,16 @@ def run(ctx: Ctx):
                         ov = [x for x in c.args if isinstance(x, vg.S) and x.op == "over"]
                         if len(ov) == 1 and nf._fn(ov[0].args[0]) == "zip":
                             z = ov[0].args[0]
-                            mv, dv = Lp.get("machines"), Lp.get("durations")
-                            mv = mv.args[1] if mv.op == "loop" else mv
-                            dv = dv.args[1] if dv.op == "loop" else dv
-                            pair_ok = z.args[1] is mv and z.args[2] is dv
+                            # the comprehension yields (first, second) of the zip in that order
+                            vals_ = [x for x in c.args[1:] if isinstance(x, vg.S) and x.op != "over"]
+                            tup_ = vals_[0] if vals_ else None
+                            pair_ok = tup_ is not None and tup_.op == "tuple" and len(tup_.args) == 2 and all(t_.op == "sub" and t_.args[0].op == "iter" for t_ in tup_.args) and \
+                                vg.is_const(tup_.args[0].args[1], 0) and vg.is_const(tup_.args[1].args[1], 1) and sm is not None and sd is not None
                 order_r = order_r and pair_ok
                 why_r = f"count at idx, machines at idx+1::2, durations at idx+2::2 over 2*count tokens, zipped (machine, duration): {order_r}; cursor += 1 + 2*count: {adv}"
-    nops_ok = isinstance(Lp.get("num_operations"), vg.S) and Lp["num_operations"] is tok(vg.const(0))
+    loops_p = [n for n in ast.walk(pj.node) if isinstance(n, ast.For)]
+    n_it = [v for v in Lp.values() if isinstance(v, vg.S) and v.op == "iter" and nf._fn(v.args[0]) == "range"]
+    nops_ok = len(loops_p) == 1 and len(n_it) == 1 and len(n_it[0].args[0].args) == 2 and n_it[0].args[0].args[1] is tok(vg.const(0))
     # writer
     itw = vg.Interp(ctx.repo, None, inline_policy=lambda f, a: False)
     itw.run_function(w)
@@ -217,7 +227,7 @@ def run(ctx: Ctx):
         if len(apps_) == 1 and len(exts_) == 1 and apps_[0][2] + 1 == exts_[0][2]:
             cntv = apps_[0][1]
             pr = exts_[0][1]
-            cnt_w = cntv.op == "meth" and cntv.args[1] == "size" and vg.is_const(cntv.args[2], 0) and job_l.op == "list" and len(job_l.args) == 1 and nf._fn(job_l.args[0]) == "len"
+            cnt_w = nf.dim_of(cntv) is not None and nf.dim_of(cntv)[1] == 0 and job_l.op == "list" and len(job_l.args) == 1 and nf._fn(job_l.args[0]) == "len"
             if pr.op == "list" and len(pr.args) == 2:
                 m_, d_ = pr.args
                 pm = nf.poly(m_)
@@ -228,6 +238,8 @@ def run(ctx: Ctx):
                 its_m = {n.id for n in vg.walk(m_) if n.op == "iter"}
                 same_ma = any(n.op == "sub" and n.args[1].op == "tuple" and n.args[1].args and n.args[1].args[0].id in its_m for n in vg.walk(d_))
                 order_w = m_ok and d_ok and same_ma
+    plus = bool(order_w)
+    ctx.ob("C19.c", "fjsp-parser:machine-id-shift", plus and minus, w.loc, f"writer emits int(machine) + 1: {plus}; reader stores at [ma - 1, op]: {minus}", construct="fjsp.parser:machine-shift")
     ctx.ob("C19.c", "fjsp-parser:token-order", order_w and order_r and adv and cnt_w and nops_ok, pj.loc,
            f"writer: [n_ops, (n_eligible, (machine + 1, duration of that machine)*)*]: {order_w and cnt_w}; reader: {why_r}; n_ops = first token: {nops_ok}",
            construct="fjsp.parser:token-order")
@@ -296,8 +308,10 @@ def run(ctx: Ctx):
     ctx.fn(lc)
     itk = vg.Interp(ctx.repo, lc.cls, inline_policy=lambda f, a: False)
     frk = itk.run_function(lc)
-    loaded = frk.locals.get("loaded")
     order = [(i, e) for i, e in enumerate(itk.events) if e.kind == "methcall"]
+    # the restored module is the object whose `.baseline.load_state_dict(...)` is called
+    lsd = [e for i, e in order if e.data[1] == "load_state_dict" and e.data[0].op == "attr" and e.data[0].args[1] == "baseline"]
+    loaded = lsd[0].data[0].args[0] if lsd else None
     i_setup = [i for i, e in order if e.data[1] == "setup" and e.data[0] is loaded]
     i_hook = [i for i, e in order if e.data[1] == "post_setup_hook" and e.data[0] is loaded]
     loads = [(i, e) for i, e in order if e.data[1] == "load_state_dict" and e.data[0].op == "attr" and e.data[0].args[0] is loaded and e.data[0].args[1] == "baseline"]
